@@ -184,8 +184,6 @@ Proof.
 Qed.
 
 (* ---- preservation per macro step ---- *)
-Lemma vkeys_of_same s s' : vehicles s' = vehicles s -> vkeys s -> vkeys s'.
-Proof. intros V K. unfold vkeys. rewrite V. exact K. Qed.
 
 (* the vehicle vid is not named by any request, requests only shrink, other vehicles untouched: invariant kept whatever vid does *)
 Lemma unnamed_vehicle_free s s' vid : Inv_disp s -> clean vid s -> rsub s s' ->
@@ -375,28 +373,9 @@ Proof.
   - destruct H as (V & _ & _ & R & _). eapply Inv_disp_ext; eauto.
   - exact I.
 Qed.
-Lemma mstep_vkeys s s' : vkeys s -> MStep env s s' -> vkeys s'.
-Proof.
-  intros K M. destruct M.
-  - apply (proj1 (transition_vonly env _ _ _ _ _ H0 K)).
-  - apply (proj1 (perform_update_vonly env _ _ _ _ H0 K)).
-  - destruct (cancel_one_spec env s rid) as [E|(r & _ & _ & _ & _ & V)]; [rewrite E; exact K|]. eapply vkeys_of_same; eauto.
-  - unfold admit_request. repeat (match goal with |- context [if ?c then _ else _] => destruct c end; try exact K).
-    destruct (add_request env s r) as [a| |] eqn:E; try exact K.
-    assert (V : vehicles a = vehicles s).
-    { unfold add_request in E. destruct (find (r_id r) (requests s)).
-      - apply modify_request_spec in E. intuition.
-      - unfold add_request_new in E. destruct (negb _); [discriminate|]. inv E. reflexivity. }
-    unfold vkeys, emit. cbn. rewrite V. exact K.
-  - unfold update_station_prices. destruct (find sid (stations s)); [|exact K].
-    destruct (modify_station env s _) eqn:E; try exact K. apply modify_station_spec in E. destruct E as (_ & _ & V & _). eapply vkeys_of_same; eauto.
-  - destruct (driver_update_vstep env (dt s) rt s v s' H eq_refl K) as (_ & K' & _). exact K'.
-  - destruct H as (V & _). eapply vkeys_of_same; eauto.
-  - exact K.
-Qed.
 Lemma mstar_disp s s' : MStar env s s' -> vkeys s -> Inv_disp s -> vkeys s' /\ Inv_disp s'.
 Proof.
-  induction 1 as [|s1 s2 s3 M _ IH]; intros K I; [auto|]. apply IH; [eapply mstep_vkeys; eauto|eapply mstep_disp; eauto].
+  induction 1 as [|s1 s2 s3 M _ IH]; intros K I; [auto|]. apply IH; [eapply (mstep_vkeys env); eauto|eapply mstep_disp; eauto].
 Qed.
 
 (* C17 over every finite history, any controller (one instruction per vehicle per step; admitted rows carry no dispatched vehicle) *)
